@@ -250,12 +250,16 @@ Theorem c12_expand_tied_ballot_error : forall b e,
   expand_tied_ballot b = inr e <-> (rk b = [] /\ e = EType).
 Proof. exact (expand_tied_ballot_err cand). Qed.
 
+(* the candidate list of the result is the profile's own list (since the library fix
+   "resolve_profile_ties keeps the profile's candidate list"; before it, the candidates were always
+   re-inferred from the expanded ballots); only an EMPTY list is replaced by the candidates cast on
+   the positive-weight expanded ballots *)
 Theorem c12_resolve_profile_ties : forall (p p' : profile),
   resolve_profile_ties p = inl p' ->
   exists bss,
     Forall2 (fun b e => expand_tied_ballot b = inl e) (ballots p) bss /\
     ballots p' = condense_bs (concat bss) /\
-    cands p' = cast_cands cand ceqb (concat bss) /\
+    cands p' = match cands p with [] => cast_cands cand ceqb (concat bss) | _ => cands p end /\
     total_wt (ballots p') == total_wt (ballots p) /\
     (score_free (ballots p) -> forall l,
        wtof_rk l (ballots p') ==
@@ -264,9 +268,32 @@ Theorem c12_resolve_profile_ties : forall (p p' : profile),
                  (ballots p))).
 Proof. exact (resolve_ok cand ceqb ceqb_spec). Qed.
 
+(* (hence a non-empty candidate list is returned unchanged, a candidate nobody ranks stays a
+   candidate: c12_resolve_keeps_candidates in Properties/C12_margin.v, with the consequences for the
+   score dictionaries and the exact description of the inferred candidates) *)
+
+(* success implies that the given candidate list is duplicate-free, and so is the returned one *)
+Theorem c12_resolve_cands_NoDup : forall (p p' : profile),
+  resolve_profile_ties p = inl p' -> NoDup (cands p) /\ NoDup (cands p').
+Proof. exact (resolve_cands_NoDup cand ceqb ceqb_spec). Qed.
+
+(* the errors: TypeError for a ballot without ranking (raised first); ValueError -- model level
+   only, a Python profile cannot list a candidate twice -- when the candidate list passed on to the
+   new profile repeats a name *)
 Theorem c12_resolve_profile_ties_error : forall (p : profile) e,
-  resolve_profile_ties p = inr e <-> (e = EType /\ exists b, In b (ballots p) /\ rk b = []).
-Proof. exact (resolve_error cand ceqb). Qed.
+  resolve_profile_ties p = inr e <->
+  (e = EType /\ exists b, In b (ballots p) /\ rk b = []) \/
+  (e = EValue /\ (forall b, In b (ballots p) -> rk b <> []) /\ ~ NoDup (cands p)).
+Proof. exact (resolve_error cand ceqb ceqb_spec). Qed.
+
+(* hence on a duplicate-free candidate list the only error is the TypeError *)
+Theorem c12_resolve_profile_ties_error_nodup : forall (p : profile) e, NoDup (cands p) ->
+  (resolve_profile_ties p = inr e <-> (e = EType /\ exists b, In b (ballots p) /\ rk b = [])).
+Proof.
+  intros p e Hnd. rewrite (resolve_error cand ceqb ceqb_spec). split.
+  - intros [H|[_ [_ H]]]; [exact H|contradiction].
+  - intros H. left. exact H.
+Qed.
 
 (* ---------- 7. positional scores are unchanged by the expansion ---------- *)
 
@@ -311,7 +338,9 @@ Print Assumptions c12_linear_refinement.
 Print Assumptions c12_expand_tied_ballot.
 Print Assumptions c12_expand_tied_ballot_error.
 Print Assumptions c12_resolve_profile_ties.
+Print Assumptions c12_resolve_cands_NoDup.
 Print Assumptions c12_resolve_profile_ties_error.
+Print Assumptions c12_resolve_profile_ties_error_nodup.
 Print Assumptions c12_expand_preserves_scores.
 Print Assumptions c12_expand_all_preserves_scores.
 
@@ -372,5 +401,20 @@ Example c12_ex_expand_ballot :
               score_of positive Pos.eqb [3#1; 2#1; 1#1] out 1 == (15#2) /\
               score_of positive Pos.eqb [3#1; 2#1; 1#1] [pb [[1;2];[3]] 3] 1 == (15#2).
 Proof. eexists. repeat split; vm_compute; reflexivity. Qed.
+
+(* resolve_profile_ties keeps the candidate list, unranked candidate 3 included; with an empty
+   list the candidates are those of the expanded ballots; a repeated name is rejected *)
+Example c12_ex_resolve_cands :
+  (exists p', Core.resolve_profile_ties positive Pos.eqb (mkProfile [pb [[1;2]] 2; pb [[1]] 1] [1;2;3])
+              = inl p' /\ cands p' = [1;2;3] /\ length (ballots p') = 3%nat) /\
+  (exists p', Core.resolve_profile_ties positive Pos.eqb (mkProfile [pb [[1;2]] 2; pb [[1]] 1] [])
+              = inl p' /\ Permutation (cands p') [1;2]) /\
+  Core.resolve_profile_ties positive Pos.eqb (mkProfile [pb [[1;2]] 2] [1;2;1]) = inr EValue /\
+  Core.resolve_profile_ties positive Pos.eqb (mkProfile [pb [] 2] [1;2;1]) = inr EType.
+Proof.
+  split; [eexists; repeat split; vm_compute; reflexivity|].
+  split; [eexists; split; [vm_compute; reflexivity|apply perm_swap]|].
+  split; vm_compute; reflexivity.
+Qed.
 
 End Examples.
